@@ -199,6 +199,10 @@ def build_negation_thresholds(sc, ec, tag0):
                 facts += [Implies(And(Not(zlo), Not(zhi)), tau == bk - shift), zlo == (bk <= 0), zhi == (bk >= nrel)]
             abstr.append((Kc, kap))
             facts += [loc <= kap, kap <= loc + nrel, r1.n_rel >= 1, r1.lo_c >= 0]
+            # instances of the floor lemma L13 (proved once in C02's lemma set): tau' = (n-1) - tau
+            from props.thr2 import floor_reflection
+            t0_, t1_ = Real("tau0!abs"), Real("tau1!abs")
+            facts += [floor_reflection(t1_, r1.n_rel - 1, t0_), floor_reflection(t0_, r1.n_rel - 1, t1_)]
             arr = me.attrs["pos"] if metric in ("tpr", "fnr") else me.attrs["neg"]
             A, N = arr.sym
             # assumed contract of np.nextafter: nextafter(-x, +inf) = -nextafter(x, -inf)
